@@ -273,6 +273,9 @@ impl Search<'_> {
                 let mut b: Vec<String> = self.hist.iter().map(|h| identity_free(&h.desc)).collect();
                 a.sort();
                 b.sort();
+                if std::env::var("SIM_DEBUG").is_ok() {
+                    eprintln!("twin order {placed:?}: outcomes {a:?} vs observed {b:?}; counts {:?} vs {:?}; verdict {verdict:?} vs {:?}", snap.as_ref().map(|s| (&s.counts, s.ordered)), self.final_snap.as_ref().map(|s| (&s.counts, s.ordered)), self.final_verdict);
+                }
                 a == b
                     && snap.as_ref().map(|s| (&s.counts, s.ordered)) == self.final_snap.as_ref().map(|s| (&s.counts, s.ordered))
                     && verdict == self.final_verdict
@@ -309,7 +312,9 @@ impl Search<'_> {
             }
             // identical operations are interchangeable under the multiset comparison
             let op_key = match &self.scn.threads[h.thread][h.index] {
-                Op::Call { m, x, y, .. } => Op::Call { slot: 0, m: *m, x: *x, y: *y, catch: true, fault: None, keep: false },
+                // (the instance stays part of the key: without `std` a panic induced through the
+                // original disables its verification, so the routing is observable)
+                Op::Call { slot, m, x, y, .. } => Op::Call { slot: *slot, m: *m, x: *x, y: *y, catch: true, fault: None, keep: false },
                 o => o.clone(),
             };
             if tried.contains(&op_key) {
@@ -605,6 +610,18 @@ pub fn check_c08(scn: &Scenario) -> Checked {
         return Checked { violations, stats, harness_error: None };
     }
     stats.nontrivial = res.log.calls.len() >= 1;
+    // without `std` a (swallowed) mock-induced panic on the original instance deliberately disables
+    // that instance's verification: only errors induced through clones are covered there
+    #[cfg(not(feature = "stdworld"))]
+    {
+        let via_original = induced.iter().any(|c| {
+            matches!(scn.threads.get(c.op.0 as usize).and_then(|t| t.get(c.op.1 as usize)), Some(Op::Call { slot: 0, .. }))
+        });
+        if via_original {
+            stats.nontrivial = false;
+            return Checked { violations, stats, harness_error: None };
+        }
+    }
     if !texts.is_empty() {
         *stats.probes.entry("mock_induced_panic_before_verification".into()).or_default() += 1;
         if texts.len() >= 2 {
